@@ -55,7 +55,7 @@ pub fn all_kinds() -> Vec<PrimitiveKind> {
 pub fn boundary_values() -> Vec<Primitive> {
     let mut v = vec![];
     for x in [0.0, -0.0, 1.0, -1.5, 2.5, 9007199254740992.0, 9.223372036854775807e18, -9.223372036854775808e18, 1.8446744073709552e19,
-              1e308, -1e308, 5e-324, 1e-6, -1e-6, 3.000001, 2.99999, f64::INFINITY, f64::NEG_INFINITY, f64::NAN] { v.push(Primitive::Number(x)); }
+              1e308, -1e308, 5e-324, 1e-6, -1e-6, 1e-16, -1e-16, 2.2e-16, 1e-300, -2.2250738585072014e-308, 3.000001, 2.99999, f64::INFINITY, f64::NEG_INFINITY, f64::NAN] { v.push(Primitive::Number(x)); }
     for i in [0i64, 1, -1, 2, 3, -7, i64::MAX, i64::MIN, i64::MAX - 1, i64::MIN + 1, 1 << 31, 1 << 32, (1 << 53) + 1, 3037000500, -3037000500, 4611686018427387904] { v.push(Primitive::Integer(i)); }
     for u in [0u64, 1, 2, 3, (1 << 63) - 1, 1 << 63, (1 << 63) + 1, u64::MAX, u64::MAX - 1, 1 << 32, 4294967296 * 2, 6074001000, (1 << 53) + 1] { v.push(Primitive::PositiveInteger(u)); }
     v.push(Primitive::Boolean(true));
